@@ -28,3 +28,5 @@ mod c21;
 mod c09;
 #[cfg(all(kani, feature = "c05"))]
 mod c05;
+#[cfg(all(kani, feature = "c07"))]
+mod c07;
